@@ -1763,6 +1763,10 @@ static void emit_text(Obj *prog) {
 void codegen(Obj *prog, FILE *out) {
   output_file = out;
 
+  // Name the translation unit. Without this the assembler records the
+  // name of the temporary assembly file in the object's symbol table.
+  println("  .file \"%s\"", base_file);
+
   File **files = get_input_files();
   for (int i = 0; files[i]; i++)
     println("  .file %d \"%s\"", files[i]->file_no, files[i]->name);
